@@ -17,9 +17,9 @@ PKGS="$(for f in $DEMOS; do echo ./$(dirname $f); done | sort -u | tr '\n' ' ')"
 echo "demo packages: $PKGS"
 suite_with="$(go test -vet=off -count=1 ./... 2>&1 | grep -v 'gdbm\|no test files\|dbconvert' | grep -v '^ok' | grep -v mutdemo | head -5)"
 demo_with="$(go test -vet=off -count=1 -run 'Mut|mut|Demo|demo' $PKGS 2>&1 | tail -3)"; go test -vet=off -count=1 $PKGS >/dev/null 2>&1; rc_with=$?
-git stash -q
+git apply -R "$D/patch.diff"
 go test -vet=off -count=1 $PKGS >/dev/null 2>&1; rc_without=$?
-git stash pop -q
+git apply "$D/patch.diff"
 # the suite without the demo files
 for f in $DEMOS; do mv "$f" "$f.off"; done
 go test -vet=off -count=1 ./... > /tmp/suite.$$ 2>&1
@@ -44,7 +44,7 @@ open(os.path.join(d,"report.md"),"w").write(rep)
 meta={"name":name,"breaks_property":prop,"confirmed":ok=="1",
  "needs_to_manifest":"see report.md (written by the sub-agent that made the change)",
  "what_was_run":{"suite_with_change_failures_excluding_gdbm":int(sf),"demo_with_change_exit":int(rw),"demo_without_change_exit":int(rwo),
-   "commands":["go test -vet=off -count=1 ./... (with change, demo files moved aside)","go test -vet=off -count=1 <demo packages> (with change)","git stash; go test ... <demo packages>; git stash pop (without change)","tools/mutant.sh patch.diff <checks> (scratch worktree, quick tier)"]},
+   "commands":["go test -vet=off -count=1 ./... (with change, demo files moved aside)","go test -vet=off -count=1 <demo packages> (with change)","git apply -R patch.diff; go test ... <demo packages>; git apply patch.diff (without change)","tools/mutant.sh patch.diff <checks> (scratch worktree, quick tier)"]},
  "checks_result":res.strip().splitlines()}
 json.dump(meta,open(os.path.join(d,"meta.json"),"w"),indent=1)
 PY
